@@ -327,7 +327,7 @@ func run(c *drv.Ctx) error {
 				errs <- err
 				return
 			}
-			err = sequence(c, w, negSeeds[i], i, "cache=off", 3, true)
+			err = sequence(c, w, negSeeds[i], i, "cache=off", nops, true)
 			if err != nil && w.Dead() {
 				fatal := drv.FatalInStderr(w.Stderr())
 				fn := "unknown"
